@@ -18,7 +18,8 @@ META = dict(
     watchdog_s={"quick": 1500, "thorough": 5400},
     evaluations_counter="cases",
     min={"v2_shapes": 100, "v1_shapes": 100, "permutation_slots_recovered": 100_000, "equivalence_weights": 100, "synthetic_triples": 20,
-         "conversions_back": 100, "reference_identity_v2": 100},
+         "conversions_back": 100, "reference_identity_v2": 100, "noncontiguous_code_matrices": 200,
+         "equivalence_weights_from_noncontiguous_codes": 20},
     anchors=["tensor/qbits/awq/packed.py:pack_v2",
              "tensor/qbits/awq/packed.py:unpack_v2",
              "tensor/qbits/awq/packed.py:pack",
@@ -99,6 +100,27 @@ def check_packing(ctx, oq, AWQPackedTensor, AWQPacking, rng, N, K, packing, reor
     ctx.see("code_dtypes", str(code_dtype))
     for name, t8 in fillings(rng, N, K):
         t = t8.to(code_dtype)
+        # the code matrix may be a view: transposed storage (what .t() of a column-major buffer gives), or a window of a
+        # wider / taller buffer
+        lay = ["contiguous", "contiguous", "transposed", "col_window", "row_stride", "col_stride"][int(rng.integers(6))]
+        if lay == "transposed":
+            t = t.t().contiguous().t()
+        elif lay == "col_window":
+            big = torch.full((N, K + 8), 5, dtype=code_dtype)
+            big[:, 3:3 + K] = t
+            t = big[:, 3:3 + K]
+        elif lay == "row_stride":
+            big = torch.full((2 * N, K), 9, dtype=code_dtype)
+            big[::2] = t
+            t = big[::2]
+        elif lay == "col_stride":
+            big = torch.full((N, 2 * K), 3, dtype=code_dtype)
+            big[:, ::2] = t
+            t = big[:, ::2]
+        if lay != "contiguous":
+            assert not t.is_contiguous() and torch.equal(t.to(torch.uint8), t8)
+            ctx.count("noncontiguous_code_matrices")
+        ctx.see("code_layouts", lay)
         tb = fp.plain_bytes(t)
         try:
             P = AWQPackedTensor.pack(t, packing=pk, reorder=reorder)
@@ -122,12 +144,12 @@ def check_packing(ctx, oq, AWQPackedTensor, AWQPacking, rng, N, K, packing, reor
             ctx.violation(dict(sig0, kind="payload_not_dense"), dict(desc=desc, dtype=str(data.dtype), numel=int(data.numel())))
         # reference identity
         if packing == "v2":
-            want = ref["pack_intweight"](t.to(torch.int32), interleave=4, kstride=64)
+            want = ref["pack_intweight"](t.to(torch.int32).contiguous(), interleave=4, kstride=64)
             ctx.count("reference_identity_v2")
             if want.dtype != data.dtype or tuple(want.shape) != tuple(data.shape) or not torch.equal(want, data):
                 ctx.violation(dict(sig0, kind="v2_differs_from_reference_packer", filling=name), dict(desc=desc))
         else:
-            want = ref["pack_awq"](t.to(torch.int32), reorder=reorder)
+            want = ref["pack_awq"](t.to(torch.int32).contiguous(), reorder=reorder)
             ctx.count("reference_identity_v1_informational")
             if not torch.equal(want, data):
                 ctx.count("v1_differs_from_reference_informational")
@@ -174,7 +196,12 @@ def check_equivalence(ctx, oq, AWQBitsTensor, rng, out_f, in_f, degenerate):
         ctx.count("synthetic_triples")
         desc = dict(desc, synthetic=True)
     try:
-        a = AWQBitsTensor(oq.qint4, 0, 128, q.size(), q.stride(), codes.clone(), scale.clone(), zp.clone())
+        acodes = codes.clone()
+        if rng.random() < 0.3:
+            # codes held in transposed storage (a view with the same values)
+            acodes = acodes.t().contiguous().t()
+            ctx.count("equivalence_weights_from_noncontiguous_codes")
+        a = AWQBitsTensor(oq.qint4, 0, 128, q.size(), q.stride(), acodes, scale.clone(), zp.clone())
         ctx.count("equivalence_weights")
         da = oracles.plain(a.dequantize())
     except Exception as e:
